@@ -32,7 +32,8 @@ C20_CLAUSES = {
     'NoErrorWhenRequestMet', 'ErrorOnlyAfterIterationLimit',
     'EveryAssemblyGetsAFlow', 'SameFlowInGroup', 'SumIsRequiredTotal',
     'HeldGroupsWithinLimit', 'ReturnedFlowsAreLastIteration',
-    'LimitNeverExceeded', 'NoUnhandledException'}
+    'LimitNeverExceeded', 'NoUnhandledException',
+    'ReturnedFlowsWithinScale'}
 
 
 def design(res, tier):
@@ -277,6 +278,17 @@ def run(tier, res, replay=None):
         traces = list(ex.map(orifice.history, jobs, chunksize=8))
         traces += list(ex.map(orifice.apply_history, ajobs))
         traces += list(ex.map(orifice.parametric_history, pjobs))
+    import os as _os
+    if _os.environ.get('C20_DEBUG'):
+        for t in traces:
+            for e in t['ev']:
+                if e['e'] in ('DIter', 'DEnd') and any(
+                        abs(x) > 10 ** 8 for x in e.get('m', [])):
+                    print('BIG', t['label'], e['e'], e['m'][:6],
+                          {k: v for k, v in t['info']['spec'].items()
+                           if k in ('pw', 'ng', 'types', 'dpl', 't_out',
+                                    'C', 'K', 'mode', 'curve')})
+                    break
     # ---- TLC validates every recorded history
     nsh = min(common.NCPU, max(1, len(traces) // 50))
     shards = [traces[i::nsh] for i in range(nsh)]
